@@ -116,6 +116,11 @@ def run(ctx, rep, tier):
         rep.check(got is not None and ord(got) == want, "C15.b", "ParseCtx._convert_char_const", f"'\\{k}' = 0x{want:02x}",
                   f"character constant '\\{k}' denotes {ord(got) if got else None}, the string escape \\{k} denotes {want}")
     rep.check(ctbl.get("'") == "'", "C15.b", "ParseCtx._convert_char_const", "'\\'' = quote", "escaped quote entry changed")
+    # F-92: an escape letter outside the table must be refused, as strings do - the identity fallback made '\a' 97 and '\1' 49
+    refusal = any(isinstance(i, ast.If) and re.fullmatch(r"char_const\[2\] not in \w+", ast.unparse(i.test)) and isinstance(i.body[-1], ast.Raise) and
+                  model.is_subclass(raised_class(i.body[-1]) or "", "NMFUError") for i in walk_no_nested(cc))
+    rep.check(not passthrough and refusal, "C15.b", "ParseCtx._convert_char_const", "an escape letter outside the table is refused (no identity fallback)",
+              "unknown escapes in character constants silently denote the escaped letter: '\\a' is 97 (C: 7), '\\f' is 102, '\\1' is 49 - the same spellings are refused in strings")
     # plain form: 3 characters -> middle one
     src = ast.unparse(cc)
     rep.check("len(char_const) == 3" in src and "return char_const[1]" in src and "char_const[2]" in src, "C15.b", "ParseCtx._convert_char_const",
@@ -197,8 +202,12 @@ def run(ctx, rep, tier):
     rep.rule("C15.e", "binary strings: hex pairs in base 16; both call sites convert ValueError into IllegalParseTree")
     cb = model.func("ParseCtx._convert_binary_string")
     src = ast.unparse(cb)
-    rep.check("base=16" in src and "contents[::2], contents[1::2]" in src and "binary_string[1:-1]" in src and "len(contents) % 2 != 0" in src, "C15.e",
-              "ParseCtx._convert_binary_string", "pairs of hex digits, odd count refused", "binary string decoding changed")
+    rep.check("base=16" in src and "contents[::2], contents[1::2]" in src and "binary_string[1:-1]" in src, "C15.e",
+              "ParseCtx._convert_binary_string", "pairs of hex digits in order", "binary string decoding changed")
+    # F-95: a tokeniser, not a filter - only blanks separate, every group is an even number of hex digits, anything else is refused
+    tok = model.has("ParseCtx._convert_binary_string", "groups = binary_string[1:-1].split()\nif any((len(group) % 2 != 0 or any((x not in string.hexdigits for x in group)) for group in groups)):\n    raise ValueError($$m)\ncontents = ''.join(groups)")
+    rep.check(tok, "C15.e", "ParseCtx._convert_binary_string", "blank-separated groups, each an even number of hex digits; anything else refused",
+              "the binary-string decoder filters instead of tokenising: characters that are not hex digits are dropped and the remaining digits paired across the gaps - `\"0x41 0x42\"b` matches 04 10 42")
     n_sites = 0
     for q, f in model.functions.items():
         for c in calls_in(f, nested=False):
@@ -318,3 +327,71 @@ def run(ctx, rep, tier):
     rep.check(len(hits) >= 2 and len(made) == 3, "C15.k", q, f"each of the {len(made)} literal-match constructions is followed by the emptiness test",
               "`\"a\"; \"\"; \"b\";` compiles into a dead end: the empty literal's machine has a start state without transitions and no accepting state")
     delegate(ctx, rep, tier, "C03", ("C03.n",), "C15.j", "a string constant assigned at the start keeps its first byte: the initial terminator is written before the start actions run")
+
+
+# ---------------------------------------------------------------------------------------------------------------- C15.m / C15.n
+def _byte_range_and_dead_arms(ctx, rep, tier):
+    """C15.m (F-93/F-94): one character of a literal stands for one byte - a character above 0xff denotes no byte; the generated test compares the input byte with its code
+    point and never matches. Every converter that turns source characters into match symbols refuses them. C15.n (F-96): an if/elif chain over one expression in which a later
+    arm's constant is already taken by an earlier `not in [..]` / `==` arm is dead - `out raw{T} r = 5;` went through the 'not a string type' arm, the refusal behind it never ran."""
+    model = ctx.model
+    rep.rule("C15.m", "literal converters refuse characters above 0xff (strings used as matches, regex atoms)")
+    cs = model.func("ParseCtx._convert_string")
+    last_if = [st for st in strip_doc(cs.body) if isinstance(st, ast.If)]
+    ok = bool(last_if) and re.fullmatch(r"any\(\(?ord\((\w+)\) > 255 for \1 in result\)?\)", ast.unparse(last_if[-1].test)) is not None and isinstance(last_if[-1].body[-1], ast.Raise) and \
+        model.is_subclass(raised_class(last_if[-1].body[-1]) or "", "NMFUError") and isinstance(strip_doc(cs.body)[-1], ast.Return) and strip_doc(cs.body)[-2] is last_if[-1]
+    rep.check(ok, "C15.m", "ParseCtx._convert_string", "result checked against the byte range just before it is returned (every use: match, case label, value)",
+              "a string literal with a character above 0xff is accepted in match position: `\"€\";` compares the input byte with 8364 and never matches (the same literal is refused as a value)")
+    ru = model.func("RegexMatch._convert_raw_regex_unimportant")
+    ok = any(isinstance(i, ast.If) and re.fullmatch(r"any\(\(?ord\((\w+)\) > 255 for \1 in v\.chars\)?\)", ast.unparse(i.test)) and isinstance(i.body[-1], ast.Raise) and
+             model.is_subclass(raised_class(i.body[-1]) or "", "NMFUError") for i in strip_doc(ru.body))
+    rep.check(ok, "C15.m", "RegexMatch._convert_raw_regex_unimportant", "regex atoms above 0xff are refused",
+              "`/€/` compares the input byte with 8364; `/[a-€]/` silently matches every byte from `a` to 0xff")
+    rep.rule("C15.n", "no arm of an if/elif chain over one expression is shadowed by an earlier arm (constant subsumption)")
+    n = 0
+    for q, f in model.functions.items():
+        for node in ast.walk(f):
+            if not isinstance(node, ast.If):
+                continue
+            par = model.parents.get(node)
+            if isinstance(par, ast.If) and par.orelse == [node]:
+                continue        # not the head of a chain
+            taken = {}          # expr text -> ("all_but", set) | ("only", set)
+            arm = node
+            while isinstance(arm, ast.If):
+                t = arm.test
+                if isinstance(t, ast.Compare) and len(t.ops) == 1:
+                    e = ast.unparse(t.left)
+                    c = t.comparators[0]
+                    consts = None
+                    if isinstance(c, ast.Constant):
+                        consts = {repr(c.value)}
+                    elif isinstance(c, (ast.List, ast.Tuple, ast.Set)) and all(isinstance(x, ast.Constant) for x in c.elts):
+                        consts = {repr(x.value) for x in c.elts}
+                    if consts is not None:
+                        n += 1
+                        covered = taken.get(e)
+                        if isinstance(t.ops[0], (ast.Eq, ast.In)) and covered is not None:
+                            dead = (covered[0] == "all_but" and not (consts & covered[1])) or (covered[0] == "only" and consts <= covered[1])
+                            if dead:
+                                rep.bad("C15.n", q, f"elif {ast.unparse(t)[:70]}", f"`elif {ast.unparse(t)}` can never be taken: an earlier arm of the same chain already takes every such value of `{e}` - "
+                                        "in _parse_out_decl the refusal of a default value for a raw output stood behind `not in [<string types>]`, so `out raw{T} r = 5;` was accepted and the value dropped",
+                                        line=arm.lineno)
+                        if isinstance(t.ops[0], ast.NotIn):
+                            taken[e] = ("all_but", consts) if covered is None else covered
+                        elif isinstance(t.ops[0], (ast.Eq, ast.In)):
+                            if covered is None:
+                                taken[e] = ("only", set(consts))
+                            elif covered[0] == "only":
+                                covered[1].update(consts)
+                arm = arm.orelse[0] if len(arm.orelse) == 1 and isinstance(arm.orelse[0], ast.If) else None
+    rep.bulk_ok("C15.n", n)
+    rep.check(n >= 100, "C15.n", "module", f"{n} constant-comparison arms examined", "too few if/elif arms recognised")
+
+
+_run_m15 = run
+
+
+def run(ctx, rep, tier):
+    _run_m15(ctx, rep, tier)
+    _byte_range_and_dead_arms(ctx, rep, tier)
